@@ -12,7 +12,7 @@ use crate::parser::{
     CsrImm, HasRegisterSets, InstructionProperties, LabelString, LabelStringToken,
     RegisterProperties,
 };
-use crate::parser::{ParserNode, Register};
+use crate::parser::{LoadType, ParserNode, Register, StoreType};
 use crate::passes::{CfgError, GenerationPass};
 
 use super::memory_location::MemoryLocation;
@@ -205,10 +205,37 @@ impl GenerationPass for AvailableValuePass {
                                 _ => false,
                             }
                     };
+                    // A store through the stack pointer overwrites every slot its
+                    // bytes overlap (every slot when the position is not known)
+                    let stored_bytes = match node.node() {
+                        ParserNode::Store(store) if store.rs1.get().is_stack_pointer() => {
+                            let width = match store.inst.get() {
+                                StoreType::Sb => 1,
+                                StoreType::Sh => 2,
+                                StoreType::Sw => 4,
+                            };
+                            Some((
+                                node.reg_values_in()
+                                    .stack_offset()
+                                    .map(|sp| i64::from(sp) + i64::from(store.imm.get().value())),
+                                width,
+                            ))
+                        }
+                        _ => None,
+                    };
+                    let overlapped = |location: &MemoryLocation| match (location, stored_bytes) {
+                        (MemoryLocation::StackOffset(offset), Some((Some(start), width))) => {
+                            i64::from(*offset) < start + width && start < i64::from(*offset) + 4
+                        }
+                        (MemoryLocation::StackOffset(_), Some((None, _))) => true,
+                        _ => false,
+                    };
                     let mut map: AvailableValueMap<MemoryLocation> = node
                         .memory_values_in()
                         .into_iter()
-                        .filter(|(location, value)| !is_stale(value) && !below_sp(location))
+                        .filter(|(location, value)| {
+                            !is_stale(value) && !below_sp(location) && !overlapped(location)
+                        })
                         .collect();
                     if let Some((MemoryLocation::StackOffset(offset), value)) =
                         node.gen_memory_value()
@@ -387,7 +414,7 @@ fn rule_perform_math_ops(
 /// the stack contains a value at the offset, then store the value from the
 /// stack into the register.
 fn rule_value_from_stack(
-    node: &impl InstructionProperties,
+    node: &ParserNode,
     available_out: &mut AvailableValueMap<Register>,
     memory_in: &AvailableValueMap<MemoryLocation>,
 ) {
@@ -401,7 +428,9 @@ fn rule_value_from_stack(
         if let Some(AvailableValue::MemoryAtOriginalRegister(psp, off)) =
             available_out.get(reg.get())
         {
-            if psp.is_stack_pointer() {
+            // Only a full-word load reads the slot's value back
+            let loads_word = matches!(node, ParserNode::Load(load) if *load.inst.get() == LoadType::Lw);
+            if psp.is_stack_pointer() && loads_word {
                 if let Some(stack_val) = memory_in.get(&MemoryLocation::StackOffset(*off)) {
                     available_out.insert(reg.get_cloned(), stack_val.clone());
                 }
